@@ -3,14 +3,15 @@
 #        ./check.sh <ID> --replay <file>       re-run the oracle on one saved case
 # exit 0: property held on everything explored; 1: VIOLATION line printed; 2: inconclusive / harness problem
 set -u
-cd /verif/harness || exit 2
+HERE="$(cd "$(dirname "$0")" && pwd)"
+export VERIF_DIR="$HERE"
+cd "$HERE/harness" || exit 2
 export CARGO_NET_OFFLINE=true
 export RUST_BACKTRACE=0
 ID="${1:-}"
 [ -n "$ID" ] || { echo "usage: check.sh <ID> quick|thorough"; exit 2; }
-mkdir -p /verif/evidence
-LOG=/verif/harness/target/build-$$.log
-mkdir -p /verif/harness/target
+mkdir -p "$HERE/evidence" "$HERE/harness/target"
+LOG="$HERE/harness/target/build-$$.log"
 if ! cargo build --quiet --profile checked >"$LOG" 2>&1; then
   # Does /repo itself still compile? If yes the harness is at fault; either way this is not a property violation.
   echo "INCONCLUSIVE property=$ID reason=harness-or-repo-build-failed (see below)"
